@@ -184,7 +184,7 @@ func c08(c *Ctx) {
 					continue
 				}
 				seen[construct] = true
-				r.Check(okGuard, "C08.S1", fi.Name(), construct, c.P.Pos(se.Pos()), "dominated by the look-up's ok result",
+				r.Check(okGuard, "C08.S1", c.attribName(fi), construct, c.P.Pos(se.Pos()), "dominated by the look-up's ok result",
 					"the batch pointer returned by getUnlocked is dereferenced on a path where the look-up may have failed (the batch was deleted while the lock was released, e.g. by compaction): nil pointer dereference in a reader goroutine, which exits the process")
 			}
 			return true
